@@ -965,7 +965,9 @@ func serReplaySumm(c *serCase) Verdict {
 	mk := func(n int) []float64 {
 		v := make([]float64, n)
 		for i := range v {
-			switch c.Salt % 3 {
+			switch c.Salt % 4 {
+			case 3:
+				v[i] = float64(1+rnd.Intn(4)) * 5e-324 // positive subnormals a few steps above zero
 			case 0:
 				v[i] = float64(1 + rnd.Intn(20)) // many ties
 			case 1:
